@@ -235,8 +235,30 @@ def run_check(prop, tier):
             json.dump(ev, f, indent=1, sort_keys=True)
             f.write("\n")
 
+        # every listed finding is re-checked from its committed replay file, so
+        # that the KNOWN-FINDING line does not depend on the sampled runs
+        hit_ids = {}
         for sig, v, k in known_hit:
-            print("KNOWN-FINDING: property=%s %s [%s] (seen %d times; e.g. replay=%s)" % (prop, k["what"], k["id"], sigcounts.get(sig, 0), v.get("replay")))
+            hit_ids[k["id"]] = hit_ids.get(k["id"], 0) + sigcounts.get(sig, 0)
+        for k in known:
+            if k["property"] != prop:
+                continue
+            still = k["id"] in hit_ids
+            rp = os.path.join(VERIF, k.get("replay", ""))
+            if k.get("replay") and os.path.exists(rp):
+                out = os.path.join(work.dir, "kf.%s.json" % k["id"])
+                e = env_go()
+                plan = json.load(open(rp))
+                if (plan.get("env") or {}).get("GODEBUG"):
+                    e["GODEBUG"] = plan["env"]["GODEBUG"]
+                else:
+                    e.pop("GODEBUG", None)
+                p = subprocess.run([binp, "-test.run", "^TestSim$", "-test.timeout", "0", "-sim.replay", rp, "-sim.out", out], env=e, cwd=work.dir,
+                                   stdout=subprocess.PIPE, stderr=subprocess.STDOUT, text=True)
+                if p.returncode == 0 and os.path.exists(out) and json.load(open(out)).get("reproduced"):
+                    still = True
+            if still:
+                print("KNOWN-FINDING: property=%s %s [%s; replay=%s; also met %d times in this batch]" % (prop, k["what"], k["id"], k.get("replay"), hit_ids.get(k["id"], 0)))
         # known-finding replays are scratch: do not litter the tree
         for sig, v, k in known_hit:
             rp = v.get("replay")
